@@ -352,12 +352,15 @@ pub(super) struct Cfg {
     pub ts: Ts,
     /// poll exponent the (recording) controller desires
     pub des: i8,
+    /// backpressure: the channel to the system task is filled to capacity with another source's
+    /// messages before every timer firing, and drained only after the task has run
+    pub bp: bool,
 }
 
 impl Cfg {
     pub(super) fn code(&self) -> String {
         format!(
-            "{};{}-{};{}{}",
+            "{};{}-{};{}{}{}",
             match self.ver {
                 Ver::V4 => "v4",
                 Ver::V5 => "v5",
@@ -370,12 +373,13 @@ impl Cfg {
                 Ts::Kr => "kr",
                 Ts::Ka => "ka",
             },
-            if self.des == self.min { String::new() } else { format!(";d{}", self.des) }
+            if self.des == self.min { String::new() } else { format!(";d{}", self.des) },
+            if self.bp { ";bp" } else { "" }
         )
     }
     pub(super) fn parse(s: &str) -> Option<Cfg> {
         let p: Vec<&str> = s.split(';').collect();
-        if p.len() != 3 && p.len() != 4 {
+        if p.len() < 3 || p.len() > 5 {
             return None;
         }
         let ver = match p[0] {
@@ -392,11 +396,16 @@ impl Cfg {
             _ => return None,
         };
         let min: i8 = a.parse().ok()?;
-        let des = match p.get(3) {
-            Some(d) => d.strip_prefix('d')?.parse().ok()?,
-            None => min,
-        };
-        Some(Cfg { ver, min, max: b.parse().ok()?, ts, des })
+        let mut des = min;
+        let mut bp = false;
+        for extra in &p[3..] {
+            if *extra == "bp" {
+                bp = true;
+            } else {
+                des = extra.strip_prefix('d')?.parse().ok()?;
+            }
+        }
+        Some(Cfg { ver, min, max: b.parse().ok()?, ts, des, bp })
     }
 }
 
@@ -766,6 +775,11 @@ pub(super) struct StepObs {
     pub sentinel_unlogged: bool,
     /// "too small" log lines for the short datagrams of the alphabet
     pub short_logged: u64,
+    /// backpressure mode: filler messages put into / taken out of the channel in this step, and
+    /// whether the channel was full when the timer fired
+    pub fillers_in: u64,
+    pub fillers_out: u64,
+    pub channel_full_at_timer: bool,
     /// real time around the step (seconds since the unix epoch), for kernel time stamps
     pub real_before: f64,
     pub real_after: f64,
@@ -884,6 +898,8 @@ struct Live {
     last_req: Option<Req>,
     /// virtual time still to pass before the next timer firing
     pending_advance: Duration,
+    /// backpressure mode: a second sender of the task's channel, and the id its fillers carry
+    filler: Option<(tokio::sync::mpsc::Sender<MsgForSystem>, ClockId)>,
 }
 
 fn unix_now() -> f64 {
@@ -1038,6 +1054,14 @@ async fn step(io: &mut Io, live: &mut Live, reaction: &[Atom], max: i8, dead: Du
         tokio::time::advance(live.pending_advance).await;
     }
     live.pending_advance = Duration::ZERO;
+    if let Some((tx, other)) = &live.filler {
+        // the system task is busy: the channel is full of another source's reports
+        while tx.try_send(MsgForSystem::Unreachable(*other)).is_ok() {
+            o.fillers_in += 1;
+        }
+        o.channel_full_at_timer = tx.capacity() == 0;
+    }
+    let bp = live.filler.is_some();
     fire(&live.wait);
 
     // phase 1: the timer's effect — a datagram on the wire, a message, or the end of the task
@@ -1063,16 +1087,28 @@ async fn step(io: &mut Io, live: &mut Live, reaction: &[Atom], max: i8, dead: Du
                 break;
             }
         }
+        // (the task has just been polled with the channel as it was; only now the system task
+        // gets round to reading)
         while let Ok(m) = live.msgs.try_recv() {
-            o.msgs.push(msg_kind(&m, live.index));
+            let k = msg_kind(&m, live.index);
+            if bp && k == MsgKind::ForeignId {
+                o.fillers_out += 1;
+            } else {
+                o.msgs.push(k);
+            }
         }
-        if live.fut.is_none() || !o.msgs.is_empty() {
+        if !o.msgs.is_empty() || (live.fut.is_none() && !(bp && o.fillers_out < o.fillers_in)) {
             break;
         }
         rounds += 1;
         backoff(rounds);
         if t0.elapsed() > dead {
-            o.stuck = Some("timer fired: no datagram, no message, task still running".to_string());
+            if bp {
+                // the wait for the report after the drain is rig business: cap, not a verdict
+                o.sentinel_lost = Some("backpressure: timer fired, channel drained, neither datagram nor report nor end of task".to_string());
+            } else {
+                o.stuck = Some("timer fired: no datagram, no message, task still running".to_string());
+            }
             break;
         }
     }
@@ -1164,7 +1200,12 @@ async fn step(io: &mut Io, live: &mut Live, reaction: &[Atom], max: i8, dead: Du
         }
     }
     while let Ok(m) = live.msgs.try_recv() {
-        o.msgs.push(msg_kind(&m, live.index));
+        let k = msg_kind(&m, live.index);
+        if bp && k == MsgKind::ForeignId {
+            o.fillers_out += 1;
+        } else {
+            o.msgs.push(k);
+        }
     }
     let m1 = marks(io, live);
     {
@@ -1225,7 +1266,9 @@ async fn drive(io: &mut Io, case: &Case) -> CaseObs {
     let clock = Arc::new(AtomicU32::new(0));
     let wait = Arc::new(Mutex::new(WaitShared::default()));
     let snaps: Arc<RwLock<HashMap<ClockId, ObservableSourceState>>> = Arc::new(RwLock::new(HashMap::new()));
-    let (tx, rx) = tokio::sync::mpsc::channel(32);
+    // the capacity the daemon gives this channel
+    let (tx, rx) = tokio::sync::mpsc::channel(crate::daemon::system::MESSAGE_BUFFER_SIZE);
+    let filler = if cfg.bp { Some((tx.clone(), ClockId::new())) } else { None };
     // exactly what `System::create_source` does, with a recording controller
     let manager = NtpManager::new(SynchronizationConfig::default(), Arc::new([]));
     let (source, initial) = manager.new_source(
@@ -1270,6 +1313,7 @@ async fn drive(io: &mut Io, case: &Case) -> CaseObs {
         task_addr: None,
         last_req: None,
         pending_advance: Duration::ZERO,
+        filler,
     };
     let dead = deadman();
     let total = case.script.len() + TAIL;
@@ -1440,8 +1484,25 @@ pub(super) fn judge(case: &Case, obs: &CaseObs) -> Verdict {
                 );
                 return v;
             }
+            if cfg.bp {
+                if o.channel_full_at_timer {
+                    v.tag("backpressure.give-up-with-full-channel");
+                } else {
+                    v.machinery.push(format!("{at}: backpressure case but the channel was not full at the timer"));
+                }
+                if !o.msgs.is_empty() {
+                    v.tag("backpressure.report-delivered-after-drain");
+                }
+            }
             if o.msgs.is_empty() {
-                v.find("C11", "ended-without-report", format!("{at}: task ended without a message to the system task"));
+                v.find(
+                    "C11",
+                    if cfg.bp { "report-lost-under-backpressure" } else { "ended-without-report" },
+                    format!(
+                        "{at}: task ended without a message to the system task (channel full at the timer: {}, {} fillers drained afterwards)",
+                        o.channel_full_at_timer, o.fillers_out
+                    ),
+                );
             } else {
                 if o.msgs.len() > 1 {
                     v.find("C11", "report-repeated", format!("{at}: messages {:?}", o.msgs));
@@ -2073,7 +2134,7 @@ fn replay(ctx: &Ctx, trace: &str) -> String {
 }
 
 pub(super) fn cfg(ver: Ver, min: i8, max: i8, ts: Ts) -> Cfg {
-    Cfg { ver, min, max, ts, des: min }
+    Cfg { ver, min, max, ts, des: min, bp: false }
 }
 
 #[test]
@@ -2107,6 +2168,11 @@ fn check() {
     plans.push(plan(cfg(Ver::V4, 4, 10, Ts::Kr), "V", 1, if quick { 12 } else { 16 }));
     plans.push(plan(cfg(Ver::Auto, 4, 10, Ts::Kr), "VD", 1, if quick { 7 } else { 10 }));
     plans.push(plan(cfg(Ver::V5, 4, 10, Ts::Sw), "VD", 1, if quick { 7 } else { 10 }));
+    // backpressure: the channel to the system task (capacity as in system.rs) is full of another
+    // source's reports whenever the timer fires; the own report must arrive once it is drained
+    plans.push(plan(Cfg { bp: true, ..cfg(Ver::V4, 4, 10, Ts::Kr) }, "VDO", 1, if quick { 4 } else { 6 }));
+    plans.push(plan(Cfg { bp: true, ..cfg(Ver::Auto, 4, 10, Ts::Ka) }, "VD", 2, if quick { 2 } else { 3 }));
+    plans.push(plan(Cfg { bp: true, ..cfg(Ver::V5, 4, 4, Ts::Sw) }, "VD", 1, if quick { 4 } else { 6 }));
     explore(&ctx, "C11", &plans);
     ctx.finish();
 }
